@@ -406,17 +406,46 @@ def integration(ctx, tmp):
         "query_datasets": (lambda lim: b.query_datasets("c16_dt", collections=["ra"], limit=lim, explain=False), 3),
         "query_datasets(find_first over 3 runs)": (lambda lim: b.query_datasets("c16_dt", collections=["rc", "rb", "ra"], limit=lim, explain=False), 3),
     }
+    import logging
+
+    class Catch(logging.Handler):
+        def __init__(self):
+            super().__init__(level=logging.WARNING)
+            self.hits = 0
+
+        def emit(self, record):
+            if "requested limit" in record.getMessage():
+                self.hits += 1
+
+    wreq, wimpl = [], []
     for wname, (fn, n) in wrappers.items():
         for lim in (-1, -(n - 1), -n, -(n + 1), -(n + 5), n - 1, n, n + 1, 0, None):
             ctx.evaluations += 1
             ctx.count("wrapper-limits")
+            catch = Catch()
+            lg = logging.getLogger("lsst.daf.butler")
+            lg.addHandler(catch)
+            logging.disable(logging.INFO)  # (the harness silences warnings globally; this one is part of the documented behaviour)
             try:
                 got = len(fn(lim))
             except Exception as e:
                 got = f"{type(e).__name__}: {str(e)[:60]}"
+            finally:
+                logging.disable(logging.WARNING)
+                lg.removeHandler(catch)
             want = n if lim is None else min(abs(lim), n)
-            if got != want:
-                viol(f"{wname}(limit={lim}) over {n} matches returned {got}, documented: {want}", f"wrapper-limit:{wname}:{lim}", {"kind": "neg-limit", "wrapper": wname, "limit": lim})
+            warned = catch.hits > 0
+            want_warn = lim is not None and lim < 0 and n > abs(lim)
+            if got != want or warned != want_warn:
+                viol(f"{wname}(limit={lim}) over {n} matches returned {got} rows (warning: {warned}), documented: {want} rows (warning: {want_warn})",
+                     f"wrapper-limit:{wname}:{lim}", {"kind": "neg-limit", "wrapper": wname, "limit": lim})
+            wreq.append(f"page wrap {'none' if lim is None else lim} {n}")
+            wimpl.append(f"rows={got} first=true warn={'true' if warned else 'false'}")
+    if core.os.path.exists(core.os.path.join(core.LEAN_DIR, ".lake", "build", "bin", "driver")):
+        for line, m, i in zip(wreq, core.driver(wreq), wimpl):
+            if m != i:
+                ctx.broken.append(f"correspondence (wrappers): `{line}` model={m} implementation={i}")
+        ctx.extra["wrapper_correspondence_lines"] = len(wreq)
 
 
 def replay(ctx, content):
